@@ -561,6 +561,25 @@ let rec find f = function
 | [] -> None
 | x :: tl -> if f x then Some x else find f tl
 
+(** val combine : 'a1 list -> 'a2 list -> ('a1 * 'a2) list **)
+
+let rec combine l l' =
+  match l with
+  | [] -> []
+  | x :: tl ->
+    (match l' with
+     | [] -> []
+     | y :: tl' -> (x, y) :: (combine tl tl'))
+
+(** val skipn : nat -> 'a1 list -> 'a1 list **)
+
+let rec skipn n0 l =
+  match n0 with
+  | O -> l
+  | S n1 -> (match l with
+             | [] -> []
+             | _ :: l0 -> skipn n1 l0)
+
 (** val seq : nat -> nat -> nat list **)
 
 let rec seq start = function
@@ -1937,6 +1956,22 @@ let with_topics sv ts =
 
 type raw_msg = str * (str * str) list
 
+type outcome =
+| OStatus of n
+| OReset
+| ORefused
+| OHang
+
+(** val accepted : outcome -> bool **)
+
+let accepted = function
+| OStatus c ->
+  existsb (N.eqb c) ((Npos (XO (XI (XI (XO (XO (XI XH))))))) :: ((Npos (XO
+    (XO (XO (XI (XO (XO (XI XH)))))))) :: ((Npos (XI (XO (XO (XI (XO (XO (XI
+    XH)))))))) :: ((Npos (XO (XI (XO (XI (XO (XO (XI XH)))))))) :: ((Npos (XO
+    (XO (XI (XI (XO (XO (XI XH)))))))) :: [])))))
+| _ -> false
+
 type req =
 | RCreateTopic of str
 | RGetTopic of str
@@ -1960,6 +1995,7 @@ type req =
 | RStreamRead of n
 | RPullBg of n * str * z
 | RJoin of n
+| RPushSub of name * outcome list
 
 type subres = { r_name : str; r_topic : str; r_ackdl : n; r_push : str option }
 
@@ -1977,6 +2013,7 @@ type resp =
 | PStream of lease list list * n option
 | PPending
 | PJoined of (n, lease list) sum
+| PPushed of (lease * outcome) list
 | PNone
 
 (** val timer_fired : n -> sub0 -> bool **)
@@ -2608,7 +2645,48 @@ let handle sv r =
             sv.sv_cons.c_waiters; c_done =
             (aremove N.eqb opid sv.sv_cons.c_done) }), (PJoined r0)),
           no_touch)
-      | None -> ((sv, PPending), no_touch)))
+      | None -> ((sv, PPending), no_touch))
+   | RPushSub (sn, script) ->
+     (match find_sub sn sv.sv_subs with
+      | Some s ->
+        let ls =
+          snd
+            (sub_pull (Npos (XO (XO (XO (XI (XO (XI (XI (XI (XI XH))))))))))
+              now s)
+        in
+        let posts =
+          combine ls
+            (app script
+              (repeat (OStatus (Npos (XO (XO (XO (XI (XO (XO (XI XH)))))))))
+                (length ls)))
+        in
+        let settle_one = fun x p ->
+          match snd p with
+          | OHang -> x
+          | x0 ->
+            if accepted x0
+            then sub_ack ((fst p).l_ack :: []) x
+            else sub_modify (((fst p).l_ack, None) :: []) x
+        in
+        (((with_subs sv
+            (upd_sub s.s_uid (fun s0 ->
+              fold_left settle_one
+                (combine
+                  (snd
+                    (sub_pull (Npos (XO (XO (XO (XI (XO (XI (XI (XI (XI
+                      XH)))))))))) now s0))
+                  (app script
+                    (repeat (OStatus (Npos (XO (XO (XO (XI (XO (XO (XI
+                      XH)))))))))
+                      (length
+                        (snd
+                          (sub_pull (Npos (XO (XO (XO (XI (XO (XI (XI (XI (XI
+                            XH)))))))))) now s0))))))
+                (fst
+                  (sub_pull (Npos (XO (XO (XO (XI (XO (XI (XI (XI (XI
+                    XH)))))))))) now s0))) sv.sv_subs)), (PPushed posts)),
+        (touch1 s.s_uid))
+      | None -> ((sv, (PPushed [])), no_touch)))
 
 (** val api_step : server -> req -> server * resp **)
 
@@ -3764,6 +3842,13 @@ let op_name = function
   kw (String ((Ascii (false, true, false, false, false, false, true, false)),
     (String ((Ascii (true, true, true, false, false, false, true, false)),
     EmptyString))))
+| RPushSub (_, _) ->
+  kw (String ((Ascii (false, true, false, false, true, false, true, false)),
+    (String ((Ascii (true, true, true, true, false, false, true, false)),
+    (String ((Ascii (true, false, true, false, true, false, true, false)),
+    (String ((Ascii (false, true, true, true, false, false, true, false)),
+    (String ((Ascii (false, false, true, false, false, false, true, false)),
+    EmptyString))))))))))
 | _ ->
   kw (String ((Ascii (false, false, false, false, true, false, true, false)),
     (String ((Ascii (true, false, true, false, true, false, true, false)),
@@ -3823,7 +3908,7 @@ let render seen r p =
         let (a, s') = r_msgs seen ls in
         ((join_sp (app (nm :: ((r_num N0) :: ((r_num (len_N ls)) :: []))) a)),
         s'))
-   | PNone -> (nm, seen))
+   | _ -> (nm, seen))
 
 (** val nl : n **)
 
@@ -3932,16 +4017,257 @@ let is_blocking_pull = function
               else None
             | _ :: _ -> None))))
 
-(** val run_lines :
-    server -> n list -> str list -> (n * str) list -> str list list -> str
-    list **)
+(** val ep_prefix : str **)
 
-let rec run_lines sv seen acks bg = function
+let ep_prefix =
+  (Npos (XO (XO (XO (XI (XO (XI XH))))))) :: ((Npos (XO (XO (XI (XO (XI (XI
+    XH))))))) :: ((Npos (XO (XO (XI (XO (XI (XI XH))))))) :: ((Npos (XO (XO
+    (XO (XO (XI (XI XH))))))) :: ((Npos (XO (XI (XO (XI (XI
+    XH)))))) :: ((Npos (XI (XI (XI (XI (XO XH)))))) :: ((Npos (XI (XI (XI (XI
+    (XO XH)))))) :: ((Npos (XI (XO (XI (XO (XO (XI XH))))))) :: ((Npos (XO
+    (XO (XO (XO (XI (XI XH))))))) :: ((Npos (XI (XI (XI (XI (XO
+    XH)))))) :: ((Npos (XI (XO (XI (XO (XO (XI XH))))))) :: []))))))))))
+
+(** val parse_outcome : str -> outcome option **)
+
+let parse_outcome t =
+  if is_kw (String ((Ascii (false, true, false, false, true, true, true,
+       false)), (String ((Ascii (true, false, true, false, false, true, true,
+       false)), (String ((Ascii (true, true, false, false, true, true, true,
+       false)), (String ((Ascii (true, false, true, false, false, true, true,
+       false)), (String ((Ascii (false, false, true, false, true, true, true,
+       false)), EmptyString)))))))))) t
+  then Some OReset
+  else if is_kw (String ((Ascii (false, false, false, true, false, true,
+            true, false)), (String ((Ascii (true, false, false, false, false,
+            true, true, false)), (String ((Ascii (false, true, true, true,
+            false, true, true, false)), (String ((Ascii (true, true, true,
+            false, false, true, true, false)), EmptyString)))))))) t
+       then Some OHang
+       else (match p_nat t with
+             | Some c -> Some (OStatus c)
+             | None -> None)
+
+(** val r_outcome : outcome -> str **)
+
+let r_outcome = function
+| OStatus c -> r_num c
+| OReset ->
+  kw (String ((Ascii (false, true, false, false, true, true, true, false)),
+    (String ((Ascii (true, false, true, false, false, true, true, false)),
+    (String ((Ascii (true, true, false, false, true, true, true, false)),
+    (String ((Ascii (true, false, true, false, false, true, true, false)),
+    (String ((Ascii (false, false, true, false, true, true, true, false)),
+    EmptyString))))))))))
+| ORefused ->
+  kw (String ((Ascii (false, true, false, false, true, true, true, false)),
+    (String ((Ascii (true, false, true, false, false, true, true, false)),
+    (String ((Ascii (false, true, true, false, false, true, true, false)),
+    (String ((Ascii (true, false, true, false, true, true, true, false)),
+    (String ((Ascii (true, true, false, false, true, true, true, false)),
+    (String ((Ascii (true, false, true, false, false, true, true, false)),
+    (String ((Ascii (false, false, true, false, false, true, true, false)),
+    EmptyString))))))))))))))
+| OHang ->
+  kw (String ((Ascii (false, false, false, true, false, true, true, false)),
+    (String ((Ascii (true, false, false, false, false, true, true, false)),
+    (String ((Ascii (false, true, true, true, false, true, true, false)),
+    (String ((Ascii (true, true, true, false, false, true, true, false)),
+    EmptyString))))))))
+
+(** val ep_index : str -> n option **)
+
+let ep_index e =
+  match strip_prefix ep_prefix e with
+  | Some s ->
+    (match s with
+     | [] -> None
+     | d :: l ->
+       (match l with
+        | [] ->
+          if is_digit d
+          then Some (N.sub d (Npos (XO (XO (XO (XO (XI XH)))))))
+          else None
+        | _ :: _ -> None))
+  | None -> None
+
+(** val ep_script : (n * outcome list) list -> n -> outcome list **)
+
+let ep_script eps k =
+  match alookup N.eqb k eps with
+  | Some l -> l
+  | None -> []
+
+(** val ep_set :
+    (n * outcome list) list -> n -> outcome list -> (n * outcome list) list **)
+
+let ep_set eps k l =
+  (k, l) :: (aremove N.eqb k eps)
+
+(** val r_post : n -> str -> (lease * outcome) -> str list **)
+
+let r_post k subname p =
+  let m = (fst p).l_msg in
+  app
+    ((r_num k) :: ((r_str subname) :: ((r_str (dec_of_N m.m_id)) :: (
+    (r_num (Npos XH)) :: ((r_str m.m_data) :: ((r_num (len_N m.m_attrs)) :: []))))))
+    (app
+      (flat_map (fun kv -> (r_str (fst kv)) :: ((r_str (snd kv)) :: []))
+        m.m_attrs) ((r_outcome (snd p)) :: []))
+
+(** val push_round :
+    server -> (n * outcome list) list -> (name * str) list ->
+    ((server * (n * outcome list) list) * ((n * str) * (lease * outcome))
+    list) * bool **)
+
+let rec push_round sv eps = function
+| [] -> (((sv, eps), []), false)
+| p :: rest ->
+  let (sn, e) = p in
+  (match ep_index e with
+   | Some k ->
+     let script = ep_script eps k in
+     let k0 = Some k in
+     let (sv1, p0) = api_step sv (RPushSub (sn, script)) in
+     let posts =
+       match p0 with
+       | PErr _ -> []
+       | POk -> []
+       | PTopic _ -> []
+       | PNames (_, _) -> []
+       | PSub _ -> []
+       | PSubs (_, _) -> []
+       | PIds _ -> []
+       | PMsgs _ -> []
+       | PStats (_, _, _) -> []
+       | PReg _ -> []
+       | PStream (_, _) -> []
+       | PPending -> []
+       | PJoined _ -> []
+       | PPushed l -> l
+       | PNone -> []
+     in
+     let eps1 =
+       match k0 with
+       | Some k' -> ep_set eps k' (skipn (length posts) script)
+       | None -> eps
+     in
+     let hung =
+       existsb (fun x -> match snd x with
+                         | OHang -> true
+                         | _ -> false) posts
+     in
+     let (p1, h2) = push_round sv1 eps1 rest in
+     let (p2, more) = p1 in
+     let mine =
+       match k0 with
+       | Some k' -> map (fun x -> ((k', (show_sub_name sn)), x)) posts
+       | None -> []
+     in
+     ((p2, (app mine more)), ((||) hung h2))
+   | None ->
+     let script =
+       repeat ORefused (S (S (S (S (S (S (S (S (S (S (S (S (S (S (S (S (S (S
+         (S (S (S (S (S (S (S (S (S (S (S (S (S (S (S (S (S (S (S (S (S (S (S
+         (S (S (S (S (S (S (S (S (S (S (S (S (S (S (S (S (S (S (S (S (S (S (S
+         (S (S (S (S (S (S (S (S (S (S (S (S (S (S (S (S (S (S (S (S (S (S (S
+         (S (S (S (S (S (S (S (S (S (S (S (S (S (S (S (S (S (S (S (S (S (S (S
+         (S (S (S (S (S (S (S (S (S (S (S (S (S (S (S (S (S (S (S (S (S (S (S
+         (S (S (S (S (S (S (S (S (S (S (S (S (S (S (S (S (S (S (S (S (S (S (S
+         (S (S (S (S (S (S (S (S (S (S (S (S (S (S (S (S (S (S (S (S (S (S (S
+         (S (S (S (S (S (S (S (S (S (S (S (S (S (S (S (S (S (S (S (S (S (S (S
+         (S (S (S (S (S (S (S (S (S (S (S (S (S (S (S (S (S (S (S (S (S (S (S
+         (S (S (S (S (S (S (S (S (S (S (S (S (S (S (S (S (S (S (S (S (S (S (S
+         (S (S (S (S (S (S (S (S (S (S (S (S (S (S (S (S (S (S (S (S (S (S (S
+         (S (S (S (S (S (S (S (S (S (S (S (S (S (S (S (S (S (S (S (S (S (S (S
+         (S (S (S (S (S (S (S (S (S (S (S (S (S (S (S (S (S (S (S (S (S (S (S
+         (S (S (S (S (S (S (S (S (S (S (S (S (S (S (S (S (S (S (S (S (S (S (S
+         (S (S (S (S (S (S (S (S (S (S (S (S (S (S (S (S (S (S (S (S (S (S (S
+         (S (S (S (S (S (S (S (S (S (S (S (S (S (S (S (S (S (S (S (S (S (S (S
+         (S (S (S (S (S (S (S (S (S (S (S (S (S (S (S (S (S (S (S (S (S (S (S
+         (S (S (S (S (S (S (S (S (S (S (S (S (S (S (S (S (S (S (S (S (S (S (S
+         (S (S (S (S (S (S (S (S (S (S (S (S (S (S (S (S (S (S (S (S (S (S (S
+         (S (S (S (S (S (S (S (S (S (S (S (S (S (S (S (S (S (S (S (S (S (S (S
+         (S (S (S (S (S (S (S (S (S (S (S (S (S (S (S (S (S (S (S (S (S (S (S
+         (S (S (S (S (S (S (S (S (S (S (S (S (S (S (S (S (S (S (S (S (S (S (S
+         (S (S (S (S (S (S (S (S (S (S (S (S (S (S (S (S (S (S (S (S (S (S (S
+         (S (S (S (S (S (S (S (S (S (S (S (S (S (S (S (S (S (S (S (S (S (S (S
+         (S (S (S (S (S (S (S (S (S (S (S (S (S (S (S (S (S (S (S (S (S (S (S
+         (S (S (S (S (S (S (S (S (S (S (S (S (S (S (S (S (S (S (S (S (S (S (S
+         (S (S (S (S (S (S (S (S (S (S (S (S (S (S (S (S (S (S (S (S (S (S (S
+         (S (S (S (S (S (S (S (S (S (S (S (S (S (S (S (S (S (S (S (S (S (S (S
+         (S (S (S (S (S (S (S (S (S (S (S (S (S (S (S (S (S (S (S (S (S (S (S
+         (S (S (S (S (S (S (S (S (S (S (S (S (S (S (S (S (S (S (S (S (S (S (S
+         (S (S (S (S (S (S (S (S (S (S (S (S (S (S (S (S (S (S (S (S (S (S (S
+         (S (S (S (S (S (S (S (S (S (S (S (S (S (S (S (S (S (S (S (S (S (S (S
+         (S (S (S (S (S (S (S (S (S (S (S (S (S (S (S (S (S (S (S (S (S (S (S
+         (S (S (S (S (S (S (S (S (S (S (S (S (S (S (S (S (S (S (S (S (S (S (S
+         (S (S (S (S (S (S (S (S (S (S (S (S (S (S (S (S (S (S (S (S (S (S (S
+         (S (S (S (S (S (S (S (S (S (S (S (S (S (S (S (S (S (S (S (S (S (S (S
+         (S (S (S (S (S (S (S (S (S (S (S (S (S (S (S (S (S (S (S (S (S (S (S
+         (S (S (S (S (S (S (S (S (S (S (S (S (S (S (S (S (S (S (S (S (S (S (S
+         (S (S (S (S (S (S (S (S (S (S (S (S (S (S (S (S (S (S (S (S (S (S (S
+         (S (S (S (S (S (S (S (S (S (S (S (S (S (S (S (S (S (S (S (S (S (S (S
+         (S (S (S (S (S (S (S (S (S (S (S (S (S (S (S (S (S (S (S (S (S (S (S
+         (S (S (S (S (S (S (S (S (S (S (S (S (S (S (S (S (S (S (S (S (S (S (S
+         (S (S (S (S (S (S (S (S (S (S (S (S (S (S (S (S
+         O))))))))))))))))))))))))))))))))))))))))))))))))))))))))))))))))))))))))))))))))))))))))))))))))))))))))))))))))))))))))))))))))))))))))))))))))))))))))))))))))))))))))))))))))))))))))))))))))))))))))))))))))))))))))))))))))))))))))))))))))))))))))))))))))))))))))))))))))))))))))))))))))))))))))))))))))))))))))))))))))))))))))))))))))))))))))))))))))))))))))))))))))))))))))))))))))))))))))))))))))))))))))))))))))))))))))))))))))))))))))))))))))))))))))))))))))))))))))))))))))))))))))))))))))))))))))))))))))))))))))))))))))))))))))))))))))))))))))))))))))))))))))))))))))))))))))))))))))))))))))))))))))))))))))))))))))))))))))))))))))))))))))))))))))))))))))))))))))))))))))))))))))))))))))))))))))))))))))))))))))))))))))))))))))))))))))))))))))))))))))))))))))))))))))))))))))))))))))))))))))))))))))))))))))))))))))))))))))))))))))))))))))))))))))))))))))))))))))))))))))))))))))))))))))))))))))))))))))))))))))))))))))))))))))))))))))))))))))))))))))))))))))))))))))))))))))))))))))))))))))
+     in
+     let k = None in
+     let (sv1, p0) = api_step sv (RPushSub (sn, script)) in
+     let posts =
+       match p0 with
+       | PErr _ -> []
+       | POk -> []
+       | PTopic _ -> []
+       | PNames (_, _) -> []
+       | PSub _ -> []
+       | PSubs (_, _) -> []
+       | PIds _ -> []
+       | PMsgs _ -> []
+       | PStats (_, _, _) -> []
+       | PReg _ -> []
+       | PStream (_, _) -> []
+       | PPending -> []
+       | PJoined _ -> []
+       | PPushed l -> l
+       | PNone -> []
+     in
+     let eps1 =
+       match k with
+       | Some k' -> ep_set eps k' (skipn (length posts) script)
+       | None -> eps
+     in
+     let hung =
+       existsb (fun x -> match snd x with
+                         | OHang -> true
+                         | _ -> false) posts
+     in
+     let (p1, h2) = push_round sv1 eps1 rest in
+     let (p2, more) = p1 in
+     let mine =
+       match k with
+       | Some k' -> map (fun x -> ((k', (show_sub_name sn)), x)) posts
+       | None -> []
+     in
+     ((p2, (app mine more)), ((||) hung h2)))
+
+(** val sorted_registry : server -> (name * str) list **)
+
+let sorted_registry sv =
+  isort (fun a b -> str_ltb (show_sub_name (fst a)) (show_sub_name (fst b)))
+    sv.sv_reg
+
+(** val run_lines :
+    server -> n list -> str list -> (n * str) list -> (n * outcome list) list
+    -> str list list -> str list **)
+
+let rec run_lines sv seen acks bg eps = function
 | [] -> []
 | ts :: rest ->
   let ts0 = map (resolve_tok acks) ts in
   (match ts0 with
-   | [] -> run_lines sv seen acks bg rest
+   | [] -> run_lines sv seen acks bg eps rest
    | op :: args ->
      if is_kw (String ((Ascii (true, true, false, false, true, false, true,
           false)), (String ((Ascii (true, false, true, false, false, false,
@@ -3955,12 +4281,12 @@ let rec run_lines sv seen acks bg = function
             false, false, true, false)), EmptyString))))))))) :: (run_lines
                                                                    sv seen
                                                                    acks bg
-                                                                   rest)
+                                                                   eps rest)
      else if is_kw (String ((Ascii (true, false, false, false, true, false,
                true, false)), EmptyString)) op
           then (kw (String ((Ascii (true, false, false, false, true, false,
                  true, false)), EmptyString))) :: (run_lines sv seen acks bg
-                                                    rest)
+                                                    eps rest)
           else if is_kw (String ((Ascii (true, false, false, true, true,
                     false, true, false)), (String ((Ascii (true, false,
                     false, true, false, false, true, false)), (String ((Ascii
@@ -3977,145 +4303,425 @@ let rec run_lines sv seen acks bg = function
                       false, false, true, false)), (String ((Ascii (false,
                       false, true, false, false, false, true, false)),
                       EmptyString))))))))))) :: (run_lines sv seen acks bg
-                                                  rest)
-               else if is_kw (String ((Ascii (false, true, false, false,
-                         false, false, true, false)), (String ((Ascii (true,
-                         true, true, false, false, false, true, false)),
-                         EmptyString)))) op
-                    then (match args with
-                          | [] ->
-                            ((Npos (XI (XI (XI (XI (XI
-                              XH)))))) :: []) :: (run_lines sv seen acks bg
-                                                   rest)
-                          | idt :: inner ->
-                            (match p_nat idt with
-                             | Some id ->
-                               (match is_blocking_pull inner with
-                                | Some p ->
-                                  let (s, m) = p in
-                                  (match p_str s with
-                                   | Some s' ->
-                                     (match p_int m with
-                                      | Some m' ->
-                                        let (sv', _) =
-                                          api_step sv (RPullBg (id, s', m'))
-                                        in
-                                        (kw (String ((Ascii (false, true,
-                                          false, false, false, false, true,
-                                          false)), (String ((Ascii (true,
-                                          true, true, false, false, false,
-                                          true, false)), EmptyString))))) :: 
-                                        (run_lines sv' seen acks bg rest)
-                                      | None ->
-                                        ((Npos (XI (XI (XI (XI (XI
-                                          XH)))))) :: []) :: (run_lines sv
-                                                               seen acks bg
-                                                               rest))
-                                   | None ->
-                                     ((Npos (XI (XI (XI (XI (XI
-                                       XH)))))) :: []) :: (run_lines sv seen
-                                                            acks bg rest))
-                                | None ->
-                                  (match parse_op inner with
-                                   | Some r ->
-                                     let (sv', p) = api_step sv r in
-                                     let (line, seen') = render seen r p in
-                                     (kw (String ((Ascii (false, true, false,
-                                       false, false, false, true, false)),
-                                       (String ((Ascii (true, true, true,
-                                       false, false, false, true, false)),
-                                       EmptyString))))) :: (run_lines sv'
-                                                             seen'
-                                                             (app acks
-                                                               (resp_acks p))
-                                                             ((id,
-                                                             line) :: bg)
-                                                             rest)
-                                   | None ->
-                                     ((Npos (XI (XI (XI (XI (XI
-                                       XH)))))) :: []) :: (run_lines sv seen
-                                                            acks bg rest)))
-                             | None ->
-                               ((Npos (XI (XI (XI (XI (XI
-                                 XH)))))) :: []) :: (run_lines sv seen acks
-                                                      bg rest)))
-                    else if is_kw (String ((Ascii (false, true, false, true,
+                                                  eps rest)
+               else if is_kw (String ((Ascii (true, false, true, true, false,
+                         false, true, false)), (String ((Ascii (true, true,
+                         true, true, false, false, true, false)), (String
+                         ((Ascii (false, false, true, false, false, false,
+                         true, false)), (String ((Ascii (true, false, true,
+                         false, false, false, true, false)),
+                         EmptyString)))))))) op
+                    then (kw (String ((Ascii (true, false, true, true, false,
+                           false, true, false)), (String ((Ascii (true, true,
+                           true, true, false, false, true, false)), (String
+                           ((Ascii (false, false, true, false, false, false,
+                           true, false)), (String ((Ascii (true, false, true,
+                           false, false, false, true, false)),
+                           EmptyString))))))))) :: (run_lines sv seen acks bg
+                                                     eps rest)
+                    else if is_kw (String ((Ascii (true, false, true, false,
                               false, false, true, false)), (String ((Ascii
-                              (true, true, true, true, false, false, true,
-                              false)), (String ((Ascii (true, false, false,
-                              true, false, false, true, false)), (String
-                              ((Ascii (false, true, true, true, false, false,
-                              true, false)), EmptyString)))))))) op
+                              (false, false, false, false, true, false, true,
+                              false)), EmptyString)))) op
                          then (match args with
                                | [] ->
                                  ((Npos (XI (XI (XI (XI (XI
                                    XH)))))) :: []) :: (run_lines sv seen acks
-                                                        bg rest)
-                               | idt :: l ->
+                                                        bg eps rest)
+                               | kt :: l ->
                                  (match l with
                                   | [] ->
-                                    (match p_nat idt with
-                                     | Some id ->
-                                       (match alookup N.eqb id bg with
-                                        | Some line ->
-                                          (join_sp
-                                            ((kw (String ((Ascii (false,
-                                               true, false, true, false,
-                                               false, true, false)), (String
-                                               ((Ascii (true, true, true,
-                                               true, false, false, true,
-                                               false)), (String ((Ascii
-                                               (true, false, false, true,
-                                               false, false, true, false)),
-                                               (String ((Ascii (false, true,
-                                               true, true, false, false,
-                                               true, false)),
-                                               EmptyString))))))))) :: (
-                                            (r_num id) :: (line :: [])))) :: 
-                                            (run_lines sv seen acks
-                                              (aremove N.eqb id bg) rest)
+                                    ((Npos (XI (XI (XI (XI (XI
+                                      XH)))))) :: []) :: (run_lines sv seen
+                                                           acks bg eps rest)
+                                  | _ :: outs ->
+                                    (match p_nat kt with
+                                     | Some k ->
+                                       (match parse_all parse_outcome outs with
+                                        | Some l0 ->
+                                          (kw (String ((Ascii (true, false,
+                                            true, false, false, false, true,
+                                            false)), (String ((Ascii (false,
+                                            false, false, false, true, false,
+                                            true, false)), EmptyString))))) :: 
+                                            (run_lines sv seen acks bg
+                                              (ep_set eps k
+                                                (app (ep_script eps k) l0))
+                                              rest)
                                         | None ->
-                                          let (sv', p) =
-                                            api_step sv (RJoin id)
-                                          in
-                                          let (line, seen') =
-                                            render seen (RJoin id) p
-                                          in
-                                          (join_sp
-                                            ((kw (String ((Ascii (false,
-                                               true, false, true, false,
-                                               false, true, false)), (String
-                                               ((Ascii (true, true, true,
-                                               true, false, false, true,
-                                               false)), (String ((Ascii
-                                               (true, false, false, true,
-                                               false, false, true, false)),
-                                               (String ((Ascii (false, true,
-                                               true, true, false, false,
-                                               true, false)),
-                                               EmptyString))))))))) :: (
-                                            (r_num id) :: (line :: [])))) :: 
-                                          (run_lines sv' seen'
-                                            (app acks (resp_acks p)) bg rest))
+                                          ((Npos (XI (XI (XI (XI (XI
+                                            XH)))))) :: []) :: (run_lines sv
+                                                                 seen acks bg
+                                                                 eps rest))
                                      | None ->
                                        ((Npos (XI (XI (XI (XI (XI
                                          XH)))))) :: []) :: (run_lines sv
                                                               seen acks bg
-                                                              rest))
-                                  | _ :: _ ->
-                                    ((Npos (XI (XI (XI (XI (XI
-                                      XH)))))) :: []) :: (run_lines sv seen
-                                                           acks bg rest)))
-                         else (match parse_op ts0 with
-                               | Some r ->
-                                 let (sv', p) = api_step sv r in
-                                 let (line, seen') = render seen r p in
-                                 line :: (run_lines sv' seen'
-                                           (app acks (resp_acks p)) bg rest)
-                               | None ->
-                                 ((Npos (XI (XI (XI (XI (XI
-                                   XH)))))) :: []) :: (run_lines sv seen acks
-                                                        bg rest)))
+                                                              eps rest))))
+                         else if is_kw (String ((Ascii (false, true, false,
+                                   false, true, false, true, false)), (String
+                                   ((Ascii (true, true, true, true, false,
+                                   false, true, false)), (String ((Ascii
+                                   (true, false, true, false, true, false,
+                                   true, false)), (String ((Ascii (false,
+                                   true, true, true, false, false, true,
+                                   false)), (String ((Ascii (false, false,
+                                   true, false, false, false, true, false)),
+                                   EmptyString)))))))))) op
+                              then let (p, hung) =
+                                     push_round sv eps (sorted_registry sv)
+                                   in
+                                   let (p0, posts) = p in
+                                   let (sv1, eps1) = p0 in
+                                   let sv2 =
+                                     if hung
+                                     then fst
+                                            (api_step sv1 (RAdvance
+                                              (N.mul (Npos (XO (XO (XI (XO
+                                                XH))))) ns_per_s)))
+                                     else sv1
+                                   in
+                                   (join_sp
+                                     (app
+                                       ((kw (String ((Ascii (false, true,
+                                          false, false, true, false, true,
+                                          false)), (String ((Ascii (true,
+                                          true, true, true, false, false,
+                                          true, false)), (String ((Ascii
+                                          (true, false, true, false, true,
+                                          false, true, false)), (String
+                                          ((Ascii (false, true, true, true,
+                                          false, false, true, false)),
+                                          (String ((Ascii (false, false,
+                                          true, false, false, false, true,
+                                          false)), EmptyString))))))))))) :: (
+                                       (r_num (len_N posts)) :: []))
+                                       (flat_map (fun x ->
+                                         r_post (fst (fst x)) (snd (fst x))
+                                           (snd x)) posts))) :: (run_lines
+                                                                  sv2 seen
+                                                                  acks bg
+                                                                  eps1 rest)
+                              else if is_kw (String ((Ascii (false, false,
+                                        true, true, false, false, true,
+                                        false)), (String ((Ascii (true, true,
+                                        true, true, false, false, true,
+                                        false)), (String ((Ascii (true, true,
+                                        true, true, false, false, true,
+                                        false)), (String ((Ascii (false,
+                                        false, false, false, true, false,
+                                        true, false)), EmptyString)))))))) op
+                                   then let (p, _) =
+                                          push_round sv eps
+                                            (sorted_registry sv)
+                                        in
+                                        let (p0, posts) = p in
+                                        let (sv1, eps1) = p0 in
+                                        let subs =
+                                          map (fun e ->
+                                            show_sub_name (fst e))
+                                            (sorted_registry sv)
+                                        in
+                                        let per = fun s ->
+                                          filter (fun x ->
+                                            str_eqb (snd (fst x)) s) posts
+                                        in
+                                        let groups =
+                                          filter (fun s ->
+                                            negb (is_nil (per s))) subs
+                                        in
+                                        (join_sp
+                                          (app
+                                            ((kw (String ((Ascii (false,
+                                               false, true, true, false,
+                                               false, true, false)), (String
+                                               ((Ascii (true, true, true,
+                                               true, false, false, true,
+                                               false)), (String ((Ascii
+                                               (true, true, true, true,
+                                               false, false, true, false)),
+                                               (String ((Ascii (false, false,
+                                               false, false, true, false,
+                                               true, false)),
+                                               EmptyString))))))))) :: (
+                                            (r_num (len_N groups)) :: []))
+                                            (flat_map (fun s ->
+                                              let ids =
+                                                isort N.ltb
+                                                  (map (fun x ->
+                                                    (fst (snd x)).l_msg.m_id)
+                                                    (per s))
+                                              in
+                                              app
+                                                ((r_str s) :: ((r_num
+                                                                 (len_N
+                                                                   (per s))) :: (
+                                                (r_num (len_N ids)) :: [])))
+                                                (map (fun i ->
+                                                  r_str (dec_of_N i)) ids))
+                                              groups))) :: (run_lines sv1
+                                                             seen acks bg
+                                                             eps1 rest)
+                                   else if is_kw (String ((Ascii (false,
+                                             true, false, false, false,
+                                             false, true, false)), (String
+                                             ((Ascii (true, true, true,
+                                             false, false, false, true,
+                                             false)), EmptyString)))) op
+                                        then (match args with
+                                              | [] ->
+                                                ((Npos (XI (XI (XI (XI (XI
+                                                  XH)))))) :: []) :: 
+                                                  (run_lines sv seen acks bg
+                                                    eps rest)
+                                              | idt :: inner ->
+                                                (match p_nat idt with
+                                                 | Some id ->
+                                                   (match is_blocking_pull
+                                                            inner with
+                                                    | Some p ->
+                                                      let (s, m) = p in
+                                                      (match p_str s with
+                                                       | Some s' ->
+                                                         (match p_int m with
+                                                          | Some m' ->
+                                                            let (sv', _) =
+                                                              api_step sv
+                                                                (RPullBg (id,
+                                                                s', m'))
+                                                            in
+                                                            (kw (String
+                                                              ((Ascii (false,
+                                                              true, false,
+                                                              false, false,
+                                                              false, true,
+                                                              false)),
+                                                              (String ((Ascii
+                                                              (true, true,
+                                                              true, false,
+                                                              false, false,
+                                                              true, false)),
+                                                              EmptyString))))) :: 
+                                                            (run_lines sv'
+                                                              seen acks bg
+                                                              eps rest)
+                                                          | None ->
+                                                            ((Npos (XI (XI
+                                                              (XI (XI (XI
+                                                              XH)))))) :: []) :: 
+                                                              (run_lines sv
+                                                                seen acks bg
+                                                                eps rest))
+                                                       | None ->
+                                                         ((Npos (XI (XI (XI
+                                                           (XI (XI
+                                                           XH)))))) :: []) :: 
+                                                           (run_lines sv seen
+                                                             acks bg eps rest))
+                                                    | None ->
+                                                      (match parse_op inner with
+                                                       | Some r ->
+                                                         let (sv', p) =
+                                                           api_step sv r
+                                                         in
+                                                         let (line, seen') =
+                                                           render seen r p
+                                                         in
+                                                         (kw (String ((Ascii
+                                                           (false, true,
+                                                           false, false,
+                                                           false, false,
+                                                           true, false)),
+                                                           (String ((Ascii
+                                                           (true, true, true,
+                                                           false, false,
+                                                           false, true,
+                                                           false)),
+                                                           EmptyString))))) :: 
+                                                         (run_lines sv' seen'
+                                                           (app acks
+                                                             (resp_acks p))
+                                                           ((id, line) :: bg)
+                                                           eps rest)
+                                                       | None ->
+                                                         ((Npos (XI (XI (XI
+                                                           (XI (XI
+                                                           XH)))))) :: []) :: 
+                                                           (run_lines sv seen
+                                                             acks bg eps rest)))
+                                                 | None ->
+                                                   ((Npos (XI (XI (XI (XI (XI
+                                                     XH)))))) :: []) :: 
+                                                     (run_lines sv seen acks
+                                                       bg eps rest)))
+                                        else if is_kw (String ((Ascii (false,
+                                                  true, false, true, false,
+                                                  false, true, false)),
+                                                  (String ((Ascii (true,
+                                                  true, true, true, false,
+                                                  false, true, false)),
+                                                  (String ((Ascii (true,
+                                                  false, false, true, false,
+                                                  false, true, false)),
+                                                  (String ((Ascii (false,
+                                                  true, true, true, false,
+                                                  false, true, false)),
+                                                  EmptyString)))))))) op
+                                             then (match args with
+                                                   | [] ->
+                                                     ((Npos (XI (XI (XI (XI
+                                                       (XI
+                                                       XH)))))) :: []) :: 
+                                                       (run_lines sv seen
+                                                         acks bg eps rest)
+                                                   | idt :: l ->
+                                                     (match l with
+                                                      | [] ->
+                                                        (match p_nat idt with
+                                                         | Some id ->
+                                                           (match alookup
+                                                                    N.eqb id
+                                                                    bg with
+                                                            | Some line ->
+                                                              (join_sp
+                                                                ((kw (String
+                                                                   ((Ascii
+                                                                   (false,
+                                                                   true,
+                                                                   false,
+                                                                   true,
+                                                                   false,
+                                                                   false,
+                                                                   true,
+                                                                   false)),
+                                                                   (String
+                                                                   ((Ascii
+                                                                   (true,
+                                                                   true,
+                                                                   true,
+                                                                   true,
+                                                                   false,
+                                                                   false,
+                                                                   true,
+                                                                   false)),
+                                                                   (String
+                                                                   ((Ascii
+                                                                   (true,
+                                                                   false,
+                                                                   false,
+                                                                   true,
+                                                                   false,
+                                                                   false,
+                                                                   true,
+                                                                   false)),
+                                                                   (String
+                                                                   ((Ascii
+                                                                   (false,
+                                                                   true,
+                                                                   true,
+                                                                   true,
+                                                                   false,
+                                                                   false,
+                                                                   true,
+                                                                   false)),
+                                                                   EmptyString))))))))) :: (
+                                                                (r_num id) :: (line :: [])))) :: 
+                                                                (run_lines sv
+                                                                  seen acks
+                                                                  (aremove
+                                                                    N.eqb id
+                                                                    bg) eps
+                                                                  rest)
+                                                            | None ->
+                                                              let (sv', p) =
+                                                                api_step sv
+                                                                  (RJoin id)
+                                                              in
+                                                              let (line, seen') =
+                                                                render seen
+                                                                  (RJoin id) p
+                                                              in
+                                                              (join_sp
+                                                                ((kw (String
+                                                                   ((Ascii
+                                                                   (false,
+                                                                   true,
+                                                                   false,
+                                                                   true,
+                                                                   false,
+                                                                   false,
+                                                                   true,
+                                                                   false)),
+                                                                   (String
+                                                                   ((Ascii
+                                                                   (true,
+                                                                   true,
+                                                                   true,
+                                                                   true,
+                                                                   false,
+                                                                   false,
+                                                                   true,
+                                                                   false)),
+                                                                   (String
+                                                                   ((Ascii
+                                                                   (true,
+                                                                   false,
+                                                                   false,
+                                                                   true,
+                                                                   false,
+                                                                   false,
+                                                                   true,
+                                                                   false)),
+                                                                   (String
+                                                                   ((Ascii
+                                                                   (false,
+                                                                   true,
+                                                                   true,
+                                                                   true,
+                                                                   false,
+                                                                   false,
+                                                                   true,
+                                                                   false)),
+                                                                   EmptyString))))))))) :: (
+                                                                (r_num id) :: (line :: [])))) :: 
+                                                              (run_lines sv'
+                                                                seen'
+                                                                (app acks
+                                                                  (resp_acks
+                                                                    p)) bg
+                                                                eps rest))
+                                                         | None ->
+                                                           ((Npos (XI (XI (XI
+                                                             (XI (XI
+                                                             XH)))))) :: []) :: 
+                                                             (run_lines sv
+                                                               seen acks bg
+                                                               eps rest))
+                                                      | _ :: _ ->
+                                                        ((Npos (XI (XI (XI
+                                                          (XI (XI
+                                                          XH)))))) :: []) :: 
+                                                          (run_lines sv seen
+                                                            acks bg eps rest)))
+                                             else (match parse_op ts0 with
+                                                   | Some r ->
+                                                     let (sv', p) =
+                                                       api_step sv r
+                                                     in
+                                                     let (line, seen') =
+                                                       render seen r p
+                                                     in
+                                                     line :: (run_lines sv'
+                                                               seen'
+                                                               (app acks
+                                                                 (resp_acks p))
+                                                               bg eps rest)
+                                                   | None ->
+                                                     ((Npos (XI (XI (XI (XI
+                                                       (XI
+                                                       XH)))))) :: []) :: 
+                                                       (run_lines sv seen
+                                                         acks bg eps rest)))
 
 (** val tokens : str -> str list **)
 
@@ -4159,7 +4765,7 @@ let rec cases_of lines cur =
 (** val run_case : (str * str list) -> str list **)
 
 let run_case c =
-  (fst c) :: (app (run_lines init_server [] [] [] (map tokens (snd c)))
+  (fst c) :: (app (run_lines init_server [] [] [] [] (map tokens (snd c)))
                ((kw (String ((Ascii (true, false, true, false, false, false,
                   true, false)), (String ((Ascii (false, true, true, true,
                   false, false, true, false)), (String ((Ascii (false, false,
